@@ -220,12 +220,16 @@ def gen_value(src, T, good=True, depth=0):
                 keys.append(kk)
         items = [gen_spec(src, T[1], depth + 1, key=kk) for kk in keys]
         if not good:
-            m = src.choice(3)
+            m = src.choice(4)
             if m == 0:
                 return src.pick([5, None])
             if m == 1:
                 # a ready-made keyed container whose elements are not spec instances at all
                 return ["klraw" if k == "keyedlist" else "ksraw", [src.pick([5, 7]), src.pick([1.5, 9])]]
+            if m == 3 and items:
+                # a ready-made keyed container of proper items whose KEYS have the wrong type (built with an int-valued key
+                # function, while the annotation says KeyedList[N, str])
+                return ["klintkey" if k == "keyedlist" else "ksintkey", T[1], items]
             items.append(src.pick([5, "zz"]))
             return ["list", items]
         if src.chance(1, 6):
@@ -566,6 +570,10 @@ class World:
                 import math
 
                 return {"func": _module_level_function, "func2": _module_level_function2, "class": int, "class2": str, "module": math}[v[1]]
+            if k in ("klintkey", "ksintkey"):
+                from spec_classes.types import KeyedList, KeyedSet
+
+                return (KeyedList if k == "klintkey" else KeyedSet)([self.realize(x) for x in v[2]], key=_int_key)
             if k in ("klraw", "ksraw"):
                 from spec_classes.types import KeyedList, KeyedSet
 
@@ -790,6 +798,11 @@ def _make_new_mixin(owner_name):
             return inst
 
     return NewMixin
+
+
+def _int_key(item):
+    k = getattr(item, "k", "")
+    return sum(ord(c) for c in k) * 31 + len(k)
 
 
 def build_world(desc):
